@@ -4,7 +4,7 @@ import os
 
 from ..common import REPO, import_sismic
 from ..gen import chart_digest, gen_chart
-from ..lockstep import Runner, first_difference, freeze, gen_script
+from ..lockstep import benign, Runner, first_difference, freeze, gen_script
 from ..probes import Probes, make_val
 from .. import build
 from .c08 import VCoder, Box, Handle
@@ -49,6 +49,11 @@ class Coder09(VCoder):
             # at the end of a step sent(name) holds exactly for the names the code sent or notified during the step:
             # a condition that says so holds, and must not be what makes the checked run differ from the unchecked one
             c += " and (sent('m0') == N('m0')) and (sent('m1') == N('m1'))"
+        if kind != 'pre':
+            # true by construction (every fragment bumps v and box.n together; a transition's action is exactly one fragment):
+            c += ' and __old__.box.n == __old__.v'
+            if owner_is_transition and kind == 'post':
+                c += ' and __old__.v == v - 1'
         if kind != 'pre':
             import zlib
             h = zlib.crc32(cid.encode()) % 4
@@ -205,6 +210,10 @@ def run_case(acc, rnd, tier, case):
         if timed and any(e[0] == 'T' for e in la):
             acc.count('time_predicate_guard_steps')
         if oa[0] == 'raise':
+            if not benign(ra.last_error) and not isinstance(ra.last_error, ContractError):
+                acc.violation('C09:unexpected-exception', 'step %d raised %s: %s (conditions and code of the generated charts only '
+                              'call probes)' % (k, type(ra.last_error).__name__, str(ra.last_error)[:200].replace('\n', ' ')), dict(wit, step=k))
+                return
             break
         k += 1
     acc.count('conditions_evaluated_checked_side', evals)
